@@ -102,8 +102,13 @@ func (s *coordinatorState) handleRecentOrCatchupResult(res result) {
 
 	// update failed heights
 	for h := range res.failed {
-		// keep the attempt count of a height that has already failed before
-		nextRetry, _ := s.retryStrategy.nextRetry(s.failed[h], time.Now())
+		// keep the attempt count of a height that has already failed before, also when a retry
+		// worker is busy with the very same height right now
+		last := s.failed[h]
+		if retrying, ok := s.inRetry[h]; ok && retrying.count > last.count {
+			last = retrying
+		}
+		nextRetry, _ := s.retryStrategy.nextRetry(last, time.Now())
 		s.failed[h] = nextRetry
 	}
 }
